@@ -206,7 +206,7 @@ func runMatrix(root string, shapes []*shape) {
 	mrng := r.Rand("multi")
 	for ui := range users {
 		for k := 0; k < nMulti; k++ {
-			ui, u := ui, users[ui]
+			ui, u, k := ui, users[ui], k
 			caseID := fmt.Sprintf("multi/%d/%d", ui, k)
 			seed := mrng.Int63()
 			if r.Skip(caseID) {
